@@ -19,6 +19,7 @@ import DarkluaModel.Rules.EvalC08Sound
 import DarkluaModel.Rules.AllocSteps
 import DarkluaModel.Rules.UnusedVariableHeap
 import DarkluaModel.Rules.UnusedVariableHeapV
+import DarkluaModel.Rules.UnusedVariableHeapV2
 import DarkluaModel.Rules.NilDeclarationHeap
 /-!
 # C01 — default rules preserve program behaviour: property theorems
@@ -700,6 +701,51 @@ example : Rules.UnusedVariable.GuardedV.applyG allocApi unusedAllocSample = Rule
   intro h
   have := congrArg (fun b => match b with | .mk ss _ => ss.length) h
   simp [unusedAllocSample, unusedAllocSampleOut] at this
+
+/-! ### remove_unused_variable — still larger fragment: unused declarations whose value is a call -/
+
+/-- **Whole rule, third fragment** (`_partial`): as `…_partialV`, and the guarded version `GuardedV2.applyG` also
+performs the rule's replacement of `local a, b = f(x)` (all names unused, the single value a call, possibly inside
+parentheses / type casts) by the statement `f(x)` — the declaration and the call statement perform the same
+evaluation (stage-4 leaf `localToCall_sound`); the cells bound on one side only are garbage. -/
+theorem rule_refines_remove_unused_variable_partialV2 (api : EvalApi) (b : Block)
+    (h : Rules.UnusedVariable.GuardedV2.applyG api b = Rules.UnusedVariable.apply api b)
+    {N : NumOps} (ρ : ExtOracle N) (hρ : Sem.HeapV.OracleFlat ρ) (n : Nat) (externs : List String) :
+    runProgram ρ n externs (Rules.UnusedVariable.apply api b) = runProgram ρ n externs b :=
+  Rules.UnusedVariable.GuardedV2.apply_refines_of_agree api b h ρ hρ n externs
+
+/-- that guarded rule is sound on EVERY program -/
+theorem rule_refines_remove_unused_variable_guardedV2 (api : EvalApi) (b : Block)
+    {N : NumOps} (ρ : ExtOracle N) (hρ : Sem.HeapV.OracleFlat ρ) (n : Nat) (externs : List String) :
+    runProgram ρ n externs (Rules.UnusedVariable.GuardedV2.applyG api b) = runProgram ρ n externs b :=
+  Rules.UnusedVariable.GuardedV2.applyG_refines api b ρ hρ n externs
+
+/-- `local x, y = (get1()); local cache = {}; local z = 1; emit(z)` -/
+def unusedCallSample : Block :=
+  .mk [.localAssign .loc [.mk "x" none, .mk "y" none] [.paren (.call (.var "get1") none .tuple [])],
+       .localAssign .loc [.mk "cache" none] [.table []],
+       .localAssign .loc [.mk "z" none] [.num 1],
+       .callStmt (.call (.var "emit") none .tuple [.var "z"])] none
+
+def unusedCallSampleOut : Block :=
+  .mk [.callStmt (.call (.var "get1") none .tuple []),
+       .localAssign .loc [.mk "z" none] [.num 1],
+       .callStmt (.call (.var "emit") none .tuple [.var "z"])] none
+
+-- non-vacuity: inside the third `H`, outside the second; the rule keeps the call as a statement
+example : Rules.UnusedVariable.GuardedV2.applyG allocApi unusedCallSample = Rules.UnusedVariable.apply allocApi unusedCallSample ∧
+    Rules.UnusedVariable.apply allocApi unusedCallSample = unusedCallSampleOut ∧
+    Rules.UnusedVariable.GuardedV.applyG allocApi unusedCallSample ≠ Rules.UnusedVariable.apply allocApi unusedCallSample := by
+  have h1 : Rules.UnusedVariable.GuardedV2.applyG allocApi unusedCallSample = unusedCallSampleOut := by rfl
+  have h2 : Rules.UnusedVariable.apply allocApi unusedCallSample = unusedCallSampleOut := by rfl
+  have h3 : Rules.UnusedVariable.GuardedV.applyG allocApi unusedCallSample =
+      .mk [.localAssign .loc [.mk "x" none, .mk "y" none] [.paren (.call (.var "get1") none .tuple [])],
+           .localAssign .loc [.mk "z" none] [.num 1],
+           .callStmt (.call (.var "emit") none .tuple [.var "z"])] none := by rfl
+  refine ⟨h1.trans h2.symm, h2, ?_⟩
+  rw [h3, h2]
+  intro h
+  simp [unusedCallSampleOut] at h
 
 /-! ### remove_nil_declaration — whole rule on a fragment (stage-3 lifting: equality up to cell renumbering) -/
 
